@@ -61,7 +61,7 @@ def validate(ctx, tag, grams, seed, per_rule, events=True, ast="opt", rows=None,
             if r in ("WHITESPACE", "COMMENT"):
                 continue
             acc = [x for x in g.get("inputs", []) if x][:40]
-            for inp in long_inputs(rnd, alpha, acc, per_rule):
+            for inp in (g["long_inputs"] if "long_inputs" in g else long_inputs(rnd, alpha, acc, per_rule)):
                 jobs.append({"idx": len(jobs), "g": g["id"], "rule": r, "inp": inp, "pre": [], "post": [], "modes": "sE" if events else "s"})
     res = props.run_sharded(bins, shards, jobs)
     recs = []
